@@ -2,5 +2,5 @@ SPECIFICATION Spec
 CONSTANTS
   Thorough = FALSE
   Emit = TRUE
-INVARIANTS NewShape Injective InData SetOne FromBytes EmitVec
+INVARIANTS SameDefs NewShape Injective InData SetOne FromBytes EmitVec
 CHECK_DEADLOCK FALSE
